@@ -12,7 +12,7 @@ Proof.
   all: try solve [intros H; discriminate].
   all: assert (Nl : c_l (r_im r) <> LTrue) by (intros X; rewrite X in E; discriminate).
   all: destruct (cache_hit k r) eqn:Eh; [simpl; intros H; injection H as _ <-; left; reflexivity|].
-  all: destruct (f_create pl); simpl.
+  all: dcreate pl; simpl.
   all: try solve [intros H; injection H as _ <-; left; reflexivity].
   all: try solve [intros H; right; split; [exact Nl|split; reflexivity]].
   all: destruct (eff_wr (r_pc r) (f_del_launch pl)); simpl; intros H; right; (split; [exact Nl|split; reflexivity]).
